@@ -65,3 +65,21 @@ let register (reg : string -> (string list -> string) -> unit) =
            tok_of_list (List.map z_of_int (List.sort compare (List.map int_of_z st.r_walpages)));
            tok_of_list (List.map z_of_int (List.sort compare (List.map int_of_z st.r_flpages))); tok_regions st.r_metaFree; tok_regions st.r_dataFree ])
     | _ -> failwith "args")
+;;
+(* commitk1 <pageSize> <slot 0|1> <wal page ids> <mapping k,v,...> <free-list page ids> <meta regions> <data regions> <header hex>
+   -> the events of Model/Commit.v for a commit without data page writes: "W id hex ... S W slot hex S C" | err *)
+let commit_register (reg : string -> (string list -> string) -> unit) =
+  reg "commitk1" (fun a -> match a with
+    | [ps; slot; wids; kv; fids; ml; dl; hdr] ->
+      let h = decode_header (bytes_of_tok hdr) in
+      (match commit_events (z_of_string ps) (slot = "1") [] (list_of_tok wids) (pairs_of_flat (list_of_tok kv)) (list_of_tok fids)
+               (regions_tok ml) (regions_tok dl) h with
+       | None -> "err"
+       | Some evs ->
+         String.concat " " (List.map (fun e -> match e with
+           | W (p, Some pg) -> "W " ^ string_of_z p ^ " " ^ tok_of_bytes pg
+           | W (p, None) -> "W " ^ string_of_z p ^ " -"
+           | S0 -> "S"
+           | CommitOk -> "C") evs))
+    | _ -> failwith "args")
+
